@@ -24,6 +24,7 @@ RULE = ("for each call spec (all iterator tools, groupby operation sequences and
 RULE += (" Also: fault types KeyError/IndexError/AssertionError and instances of Exception/BaseException themselves; a fault planted in a callable call or item pull that the counterpart performs and the library skips (with a differing outcome) is reported; the probes' aclose() returns a truthy value.")
 RULE += (' Also: a source whose plain (non-async) __anext__ fails when called.')
 RULE += (' Also: builtin callables handing back awaitables (abs, operator.getitem, deque.popleft) against the same builtin behind a lambda, every failing position; class callables.')
+RULE += (' Also: the siblings of a failed tee child are compared to the end (class-based asynchronous sources).')
 ASSUMPTIONS = ["Stop(Async)Iteration / IndexError are never injected (their meaning is the language's, not the library's)",
                "closing a faulted source is release, not use"]
 EXHAUSTIVE = {"quick": False, "thorough": False}
@@ -278,11 +279,34 @@ def run_case(case, stats: Counter):
             if tool == "tee":
                 # judged up to and including the first failure seen by a consumer (what happens when a tee is
                 # used further after its source failed is not part of the property)
+                # ... for the child that received the failure: a child of the library's tee has ended with it, an
+                # itertools.tee child can be advanced further.  Its SIBLINGS are none the wiser: they get what the source
+                # goes on to provide, exactly like the counterpart's - their events are compared to the end)
+                # (only for class-based asynchronous sources: every other kind reaches the tee through a generator -
+                # the source itself or the library's sync-to-async adapter - which its own failure finishes)
+                siblings_too = flav[0].startswith("async_class")
                 for side in (sync, asy):
-                    cut = next((n for n, (_, ev) in enumerate(side.out) if isinstance(ev, tuple) and ev and ev[0] == "raise"), None)
-                    if cut is not None:
-                        side.term = side.out[cut][1]
-                        side.out = side.out[:cut]
+                    if not siblings_too:
+                        cut = next((n for n, (_, ev) in enumerate(side.out) if isinstance(ev, tuple) and ev and ev[0] == "raise"), None)
+                        if cut is not None:
+                            side.term = side.out[cut][1]
+                            side.out = side.out[:cut]
+                        continue
+                    stats["tee_sibling_events_compared_after_a_failure"] += 1
+                    failed, kept, first = set(), [], None
+                    for c, ev in side.out:
+                        if c in failed:
+                            continue
+                        if isinstance(ev, tuple) and ev and ev[0] == "raise":
+                            failed.add(c)
+                            if first is None:
+                                first = ev
+                            kept.append((c, ("failed",)))
+                            continue
+                        kept.append((c, ev))
+                    if first is not None:
+                        side.term = first
+                    side.out = kept
             stats["injections"] += 1
             stats[f"inj_{kind}"] += 1
             raised = len(sync.term) == 3 and sync.term[0] == "raise" and sync.term[2]
